@@ -2,7 +2,7 @@
    Every sentence of the property as a theorem about the model (coq/C13/Model.v on top of coq/C10/Model.v);
    proofs in coq/C13/Proofs*.v. *)
 From V Require Import C13.Glue C13.ProofsBase C13.ProofsFields C13.ProofsPrint C13.ProofsSim C13.ProofsMeets
-  C13.ProofsActive C13.ProofsProps C10.ProofsStack.
+  C13.ProofsActive C13.ProofsProps C13.ProofsScalar C10.ProofsStack.
 Local Open Scope nat_scope.
 
 (* "... with the severity, body, attributes (last write wins per key), timestamp, event id/name, instrumentation scope
@@ -211,3 +211,11 @@ Theorem model_meets_spec : forall l k, parse_case l = Some k ->
   run_spec l (run_model l) = [].
 Proof. intros l k P. exact (proj2 (model_meets_spec_wire l k P)). Qed.
 Print Assumptions model_meets_spec.
+
+(* ... and nothing at all, whatever the caller overwrites and whenever, when every body and attribute value the program
+   supplies is a scalar: the proved part of log_independent_of_later_mutation over whole programs *)
+Theorem model_meets_spec_scalar_values : forall l k, parse_case l = Some k ->
+  existsb has_nameless (k_ops k) = false -> forallb op_scalar (k_ops k) = true ->
+  run_spec l (run_model l) = [].
+Proof. intros l k P N S. unfold run_spec, run_model. rewrite P. exact (model_meets_spec_scalar k N S). Qed.
+Print Assumptions model_meets_spec_scalar_values.
